@@ -24,6 +24,8 @@ type c13Case struct {
 	Unknown string   `json:"unknown"`
 	Planted int      `json:"planted"` // index of the planted value, -1 none
 	Nearest int      `json:"nearest"` // index of the value NearestMatch is asked about, -1 none
+	Late    int      `json:"late"`    // 1 + index of a value registered only after a first MultipleMatch call (0: none)
+	LatePre bool     `json:"latepre"` // ... through AddPrecomputedValue instead of AddValue
 }
 
 func c13Norm(c c13Case, s string) string {
@@ -43,16 +45,41 @@ func runC13Case(c c13Case) string {
 	} else {
 		cl = sc.New(c.Thr)
 	}
-	for i, v := range c.Values {
+	add := func(i int, pre bool) string {
+		v := c.Values[i]
 		var perr interface{}
 		func() {
 			defer func() { perr = recover() }()
-			if err := cl.AddValue(fmt.Sprintf("k%d", i), v); err != nil {
+			var err error
+			if pre {
+				nv := c13Norm(c, v)
+				err = cl.AddPrecomputedValue(fmt.Sprintf("k%d", i), nv, searchset.New(nv, searchset.DefaultGranularity))
+			} else {
+				err = cl.AddValue(fmt.Sprintf("k%d", i), v)
+			}
+			if err != nil {
 				perr = err
 			}
 		}()
 		if perr != nil {
-			return fmt.Sprintf("VIOL - AddValue(%q) failed: %v", v, perr)
+			return fmt.Sprintf("VIOL - registering %q failed: %v", v, perr)
+		}
+		return ""
+	}
+	for i := range c.Values {
+		if i == c.Late-1 {
+			continue
+		}
+		if v := add(i, false); v != "" {
+			return v
+		}
+	}
+	if c.Late > 0 {
+		// a history: the classifier is queried, then learns one more value, then is queried again
+		cl.MultipleMatch(c.Unknown)
+		cl.NearestMatch(c.Unknown)
+		if v := add(c.Late-1, c.LatePre); v != "" {
+			return v
 		}
 	}
 	nu := c13Norm(c, c.Unknown)
@@ -195,6 +222,13 @@ func genC13(r *rng) c13Case {
 	c.Unknown = u
 	if r.chance(1, 2) {
 		c.Nearest = r.intn(len(c.Values))
+	}
+	if len(c.Values) > 1 && r.chance(1, 4) {
+		c.Late = 1 + r.intn(len(c.Values))
+		if r.chance(1, 2) {
+			c.Late = 1 + c.Planted
+		}
+		c.LatePre = r.chance(1, 2)
 	}
 	return c
 }
